@@ -36,7 +36,13 @@ KNOBS = {
 
 
 def gen(rs: int, tier: str, index: int) -> dict:
-    return gen_worker_script(rs, tier_knobs(KNOBS, tier, index))
+    s = gen_worker_script(rs, tier_knobs(KNOBS, tier, index))
+    if s["config"]["workers"] == 1 and index % 5 == 3:
+        # the worker is started through the real `taskiq worker` child entry point (cli/worker/run.py start_listen) and stopped by a signal
+        from sim.rng import stream
+        s["config"]["entry"] = "cli"
+        s["config"]["stop_signal"] = stream(rs, "c05cli").choice(["SIGINT", "SIGTERM", "SIGHUP"])
+    return s
 
 
 def oracle(script: dict, run: Any) -> List[Violation]:
@@ -153,7 +159,8 @@ def oracle(script: dict, run: Any) -> List[Violation]:
 def probes(script: dict, run: Any) -> Dict[str, int]:
     h = Hist(run)
     res = {"stop_while_tasks_running": 0, "take_after_stop": 0, "returned_by_timeout_with_unfinished": 0,
-           "n_limit_return": 0, "never_ending_task": int(bool(h.kind("never"))), "stop_during_poll_idle": 0}
+           "n_limit_return": 0, "never_ending_task": int(bool(h.kind("never"))), "stop_during_poll_idle": 0,
+           "cli_entry_stopped_by_signal": int(script["config"].get("entry") == "cli" and bool(h.kind("signal")))}
     stops = h.kind("stop_set")
     for s in stops:
         live = 0
